@@ -251,7 +251,36 @@ func genSiblingPair(r *Rng) (string, string, int, int) {
 	if r.Bool(0.3) {
 		cond = " WHERE " + genCond(r, "", 4)
 	}
-	switch r.Intn(12) {
+	switch r.Intn(14) {
+	case 12, 13:
+		// one syntax tree evaluated before and after the table changed its shape (a column
+		// added in front, a view declared again with its columns in another order) against
+		// the same statements parsed afresh: what a tree resolved once must not be reused
+		// for a view whose columns sit elsewhere. The expression names many columns, so
+		// that per-scope caches leave their small-table mode.
+		e9 := "STRING(id) || STRING(g) || IFNULL(STRING(v), STRING(0)) || s || STRING(id + 1) || STRING(g + 1) || IFNULL(STRING(v), STRING(1)) || UPPER(s) || STRING(id + 2) || LOWER(s)"
+		if r.Bool(0.3) {
+			e9 = "STRING(id) || s || STRING(g)"
+		}
+		alter, restore := "ALTER TABLE a ADD c0 DEFAULT 7 FIRST;", "ALTER TABLE a DROP c0;"
+		if r.Bool(0.3) {
+			alter, restore = "ALTER TABLE a ADD (c0, c1) DEFAULT 7 BEFORE g;", "ALTER TABLE a DROP (c0, c1);"
+		}
+		switch r.Intn(3) {
+		case 0:
+			q := fmt.Sprintf("SELECT %s AS x FROM a ORDER BY id", e9)
+			return fmt.Sprintf("%s; %s %s; %s", q, alter, q, restore),
+				fmt.Sprintf("PREPARE px FROM '%s'; EXECUTE px; %s EXECUTE px; %s DISPOSE PREPARE px;", q, alter, restore), 1, 0
+		case 1:
+			q := fmt.Sprintf("(SELECT %s FROM a WHERE id = 1)", e9)
+			return fmt.Sprintf("PRINT %s; %s PRINT %s; %s", q, alter, q, restore),
+				fmt.Sprintf("DECLARE fq FUNCTION () AS BEGIN RETURN %s; END; PRINT fq(); %s PRINT fq(); %s DISPOSE FUNCTION fq;", q, alter, restore), 1, 0
+		default:
+			q := fmt.Sprintf("SELECT %s AS x FROM w ORDER BY id", e9)
+			v1, v2 := "DECLARE w VIEW AS SELECT id, g, v, s FROM a;", "DISPOSE VIEW w; DECLARE w VIEW AS SELECT s, v, g, id FROM a;"
+			return fmt.Sprintf("%s %s; %s %s; DISPOSE VIEW w;", v1, q, v2, q),
+				fmt.Sprintf("%s PREPARE px FROM '%s'; EXECUTE px; %s EXECUTE px; DISPOSE VIEW w; DISPOSE PREPARE px;", v1, q, v2), 1, 0
+		}
 	case 10, 11:
 		// two expressions evaluated inside ONE expression against each of them on its own: evaluating
 		// the first must not change what the second one reads (rows of the group, of the record)
